@@ -92,10 +92,14 @@ impl<T: AsFd + 'static> AsyncReadManaged for &AsyncFd<T> {
     type Buffer = BufferRef;
 
     async fn read_managed(&mut self, len: usize) -> io::Result<Option<Self::Buffer>> {
-        let runtime = Runtime::current();
         let fd = self.to_shared_fd();
-        let op = ReadManaged::new(fd, &runtime.buffer_pool()?, len)?;
-        let res = runtime.submit(op).await;
+        // No `Runtime` clone is held across the await: a clone owned by a task keeps
+        // `Runtime::drop` from clearing the executor, which then never drops the task.
+        let res = Runtime::with_current(|runtime| {
+            let op = ReadManaged::new(fd, &runtime.buffer_pool()?, len)?;
+            io::Result::Ok(runtime.submit(op))
+        })?
+        .await;
         unsafe { res.take_buffer() }
     }
 }
@@ -128,11 +132,12 @@ fn read_multi<T: AsFd + 'static>(
     fd: SharedFd<T>,
     len: usize,
 ) -> impl Stream<Item = io::Result<BufferRef>> {
-    let runtime = Runtime::current();
     SubmitMultiStream::new(move || {
-        let pool = runtime.buffer_pool()?;
-        let op = ReadMulti::new(fd.clone(), &pool, len)?;
-        Ok(runtime.submit_multi(op).into_managed(pool))
+        Runtime::with_current(|runtime| {
+            let pool = runtime.buffer_pool()?;
+            let op = ReadMulti::new(fd.clone(), &pool, len)?;
+            Ok(runtime.submit_multi(op).into_managed(pool))
+        })
     })
 }
 
